@@ -1548,7 +1548,11 @@ class Var(SymbolNode):
             "flags": get_flags(self, VAR_FLAGS),
         }
         if self.final_value is not None:
-            data["final_value"] = self.final_value
+            if isinstance(self.final_value, complex):
+                # JSON has no complex numbers.
+                data["final_value"] = [self.final_value.real, self.final_value.imag]
+            else:
+                data["final_value"] = self.final_value
         return data
 
     @classmethod
@@ -1571,7 +1575,10 @@ class Var(SymbolNode):
         v.is_ready = False  # Override True default set in __init__
         v._fullname = data["fullname"]
         set_flags(v, data["flags"])
-        v.final_value = data.get("final_value")
+        final_value = data.get("final_value")
+        if isinstance(final_value, list):
+            final_value = complex(final_value[0], final_value[1])
+        v.final_value = final_value
         return v
 
     def write(self, data: WriteBuffer) -> None:
